@@ -128,8 +128,9 @@ def cond_text(rng, spec: dict, simulate: bool = False) -> str:
     system = [["Run Time", "s", 0.0], ["Block Time", "s", 0.0], ["Run Counter", None, 0], ["System State", None, "Running"]]
     name, unit, value = rng.choice(spec["tags"] + (system if not simulate and rng.random() < 0.25 else []))
     r = rng.random()
-    if r < 0.03:
-        name = rng.choice(FAR + [name[:-1] + "x"])
+    if r < 0.06:
+        # an undefined name: unrelated, or one edit away from a defined one (the analyzer's "did you mean" path)
+        name = rng.choice(FAR[:2] + [name[:-1] + "x", name + "s", name[:1] + name[2:] if len(name) > 3 else name + "x"])
     op = "=" if simulate else rng.choice(["<", "<=", ">", ">=", "=", "==", "!="])
     if unit is None and isinstance(value, str):
         op = "=" if simulate else rng.choice(["=", "==", "!=", "=", ">"])
@@ -182,7 +183,9 @@ def gen_method(rng, spec: dict, n_lines: int) -> str:
         elif r < 0.60:
             add(f"Simulate: {cond_text(rng, spec, simulate=True)}")
         elif r < 0.64:
-            name = rng.choice(spec["tags"])[0] if rng.random() < 0.9 else rng.choice(FAR)
+            name = rng.choice(spec["tags"])[0]
+            if rng.random() < 0.12:
+                name = rng.choice([rng.choice(FAR), name[:-1] + "x", name + "s"])
             add(f"Simulate off: {name}")
         elif r < 0.70:
             # units from the static list, the time units, and near misses that start with / contain / end in a unit
